@@ -10,7 +10,7 @@ CONSTANTS
   Offs = {0}
   Ats <- AtsNone
   Ranges = {3}
-  Funcs = {"count_over_time", "last_over_time"}
+  Funcs = {"last_over_time"}
   TsFuncs = {}
   SqRanges = {4}
   SqSteps = {2}
